@@ -577,6 +577,7 @@ Not decided: doc-comment attribution (excluded by the property), nom's internals
     }
     hyphen_runs(m, ctx);
     word_sequences(m, ctx);
+    line_comments(m, ctx);
     balanced_scanner(m, ctx);
     mandatory_whitespace(m, ctx);
 }
@@ -863,4 +864,49 @@ fn mandatory_whitespace(m: &Model, ctx: &mut Ctx) {
         }
     }
     ctx.floor("C13.mandatory/sites", sites, 2);
+}
+
+
+/// C13.line — X.680 12.6.3: a one-line comment begins with `--` and ends with the next pair of adjacent hyphens or at the end
+/// of the line, whichever comes first. The crate's `line_comment` is interpreted character by character (SRC-C) on comments
+/// with and without text, closed and unclosed, at the end of the input, and on runs of hyphens: what it consumes must be
+/// exactly the comment — a character more comments out notation that follows on the same line, a character less leaves
+/// hyphens behind for the next parser.
+pub fn line_comments(m: &Model, ctx: &mut Ctx) {
+    use crate::eval::Evaluator;
+    use crate::rules::util::const_resolver;
+    let rule = "C13.line";
+    let Some(f) = m.fns.iter().find(|f| f.name == "line_comment" && f.module.starts_with("lexer") && f.krate == "rasn-compiler") else {
+        ctx.fail_closed(rule, "anchor not found: lexer::common::line_comment");
+        return;
+    };
+    ctx.func(&f.key);
+    let Some(syn::Stmt::Expr(tail, None)) = f.block.stmts.last() else {
+        ctx.fail_closed(rule, "line_comment does not end in a parser expression");
+        return;
+    };
+    let consts = const_resolver(m);
+    let ev = Evaluator { consts: &consts, call_hook: &crate::eval::no_hook, inline: None };
+    // the oracle: 12.6.3 read literally
+    fn oracle(t: &str) -> Option<usize> {
+        let body = t.strip_prefix("--")?;
+        let eol = body.find(|c| c == '\n' || c == '\r').unwrap_or(body.len());
+        Some(match body[..eol].find("--") { Some(i) => 2 + i + 2, None => 2 + eol })
+    }
+    let texts = ["-- c -- b INTEGER", "---- b BOOLEAN", "--\nnext", "-- c\nnext", "--", "-- c", "-- c --", "----", "----- x", "-- a ---5", "-- a -- -- b --", "--\"q\" { } END --x", "-- \u{e9}t\u{e9} -- y", "------ z", "-- c -\nnext"];
+    for t in texts {
+        ctx.oblige(rule, &format!("{:?}", t), true);
+        let want = oracle(t);
+        match crate::nomchars::run(&ev, tail, t, 0, 0) {
+            Ok(got) => {
+                let got = got.map(|(p, _)| p);
+                if got != want {
+                    ctx.violate(rule, if got > want { "consumes-too-much" } else { "consumes-too-little" }, &f.file, f.line,
+                        &format!("line_comment on {:?} consumes {:?} ({:?}); by X.680 12.6.3 the comment is {:?}: {}", t, got, got.map(|g| &t[..g]), want.map(|w| &t[..w]),
+                            if got > want { "the notation behind the comment on the same line is commented out (a component disappears, or Ok turns into Err)" } else { "part of the comment is left for the next parser" }));
+                }
+            }
+            Err(e) => { ctx.fail_closed(rule, &format!("[line_comment on {:?}]: {}", t, e)); break }
+        }
+    }
 }
